@@ -14,6 +14,7 @@ import (
 	"path/filepath"
 	"runtime/debug"
 	"sort"
+	"strings"
 	"sync"
 	"sync/atomic"
 	"time"
@@ -472,6 +473,33 @@ func (c *Ctx) matchKnown(prop, site, clause string, shape map[string]any) string
 	return ""
 }
 
+// PanicCulprit returns the first frame below runtime.gopanic that belongs to the library
+// (go-i2p/common, go-i2p/crypto) or to the harness, whichever comes first: a panic raised
+// inside the standard library on behalf of library code is attributed to the library.
+func PanicCulprit(stack string) string {
+	lines := strings.Split(stack, "\n")
+	seenPanic := false
+	for _, l := range lines {
+		if strings.HasPrefix(l, "\t") || l == "" {
+			continue
+		}
+		if strings.HasPrefix(l, "panic(") {
+			seenPanic = true
+			continue
+		}
+		if !seenPanic {
+			continue
+		}
+		if strings.HasPrefix(l, "github.com/go-i2p/") || strings.HasPrefix(l, "verifharness/") || strings.HasPrefix(l, "main.") {
+			if i := strings.LastIndex(l, "("); i > 0 {
+				return l[:i]
+			}
+			return l
+		}
+	}
+	return ""
+}
+
 // Call runs f (a call into the library) under the event discipline: the operation and
 // its input are written to the pending file first, panics are recovered and returned.
 // It reports whether f panicked.
@@ -488,10 +516,23 @@ func (c *Ctx) Call(op string, input []byte, f func()) (panicked bool, pv any, st
 			panicked, pv, stack = true, r, string(debug.Stack())
 			c.mu.Lock()
 			c.op(op).Panics++
-			if c.Prop != "C04" && c.Prop != "C20" {
+			culprit := PanicCulprit(stack)
+			inLib := strings.HasPrefix(culprit, "github.com/go-i2p/")
+			if !inLib {
+				// a panic raised by the harness itself: the run cannot be trusted
+				c.sum.Floors = append(c.sum.Floors, fmt.Sprintf("harness panic in %s during %s: %v", culprit, op, r))
+				lst, _ := c.sum.Extra["panic_stacks"].([]any)
+				if len(lst) < 3 {
+					c.sum.Extra["panic_stacks"] = append(lst, fmt.Sprintf("%s: %v\n%s", op, r, stack))
+				}
+			} else if c.Prop != "C04" && c.Prop != "C20" {
 				c.sum.Panics++
 			}
 			c.mu.Unlock()
+			if inLib && c.Prop != "C04" && c.Prop != "C20" {
+				// a library panic seen by another property's monitor is still a C04 witness
+				c.ViolateP("C04", op, "panic", map[string]any{"panic_at": culprit, "seen_by": c.Prop}, input, fmt.Sprint(r), stack)
+			}
 		}
 	}()
 	f()
